@@ -34,6 +34,9 @@ func genC03() *rapid.Generator[Case] {
 			if rapid.IntRange(0, 9).Draw(t, "reopen") == 0 {
 				c.Steps = append(c.Steps, Step{K: "reopen"})
 			}
+			if c.Cfg.Mode != 2 && rapid.IntRange(0, 11).Draw(t, "merge") == 5 {
+				c.Steps = append(c.Steps, Step{K: "merge"})
+			}
 		}
 		c.Extra = map[string]interface{}{"re": rapid.SampledFrom([]string{".*", "^a", "b$", "[ab]+", "^.$"}).Draw(t, "re")}
 		return c
@@ -70,6 +73,13 @@ func runC03(c Case, st *Stats) error {
 					o.Do(m)
 				}
 				written[string(s.Ops[j].Key)] = true
+			}
+		case "merge":
+			if err := h.Merge(); err == nil {
+				st.Class("successful-merges", 1)
+			}
+			if h.Dead {
+				return fmt.Errorf("step %d: Merge panicked", i)
 			}
 		case "reopen":
 			if err := h.Reopen(); err != nil {
